@@ -180,6 +180,33 @@ func TestVerifC15(t *testing.T) {
 		}
 		c.Sample("user.name-1@example.org/r/s@t/u")
 	}})
+	// every character of the first planes' scripts, punctuation and spaces (all of Unicode's White_Space is
+	// below U+3100), some beyond, and every lone byte that is not valid UTF-8, in each part of the address
+	for part, mk := range map[string]func(ch string) []string{
+		"local":    func(ch string) []string { return []string{"a" + ch + "b@d", ch + "@d/r", "l" + ch + "@d/r"} },
+		"domain":   func(ch string) []string { return []string{"l@d" + ch + "d", ch + "d", "d" + ch + "/r", "l@" + ch} },
+		"resource": func(ch string) []string { return []string{"l@d/r" + ch + "s", "d/" + ch} },
+	} {
+		part, mk := part, mk
+		scs = append(scs, hx.Scenario{Name: "characters/" + part, Run: func(c *hx.Ctx) {
+			var chars []string
+			for r := rune(0); r < 0x3100; r++ {
+				chars = append(chars, string(r))
+			}
+			for _, r := range []rune{0xD7FF, 0xE000, 0xFEFF, 0xFFFD, 0xFFFF, 0x10000, 0x1F600, 0xE0020, 0x10FFFF} {
+				chars = append(chars, string(r))
+			}
+			for b := 0x80; b <= 0xFF; b++ {
+				chars = append(chars, string([]byte{byte(b)}))
+			}
+			for _, ch := range chars {
+				for _, s := range mk(ch) {
+					c15check(c, s)
+				}
+			}
+			c.Sample(map[string]any{"part": part, "characters": len(chars)})
+		}})
+	}
 	if hx.Main("C15", scs) == 2 {
 		t.Fatal("internal error")
 	}
